@@ -168,6 +168,17 @@ def x_Assign(eng, node, st):
                     nxt += assign_target(eng, t, v, s2)
             outs = nxt
         return outs
+    # x.f = x.f + v: f is read only to update itself
+    t0 = node.targets[0] if len(node.targets) == 1 else None
+    if isinstance(t0, ast.Attribute) and isinstance(node.value, ast.BinOp) and isinstance(node.value.left, ast.Attribute) \
+            and ast.dump(node.value.left.value) == ast.dump(t0.value) and node.value.left.attr == t0.attr \
+            and isinstance(node.value.right, ast.Constant):
+        eng._self_update = True
+        try:
+            vals = eng.ev(node.value, st)
+        finally:
+            eng._self_update = False
+        return lift(vals, go)
     # record heap aliasing of container values bound to locals
     if len(node.targets) == 1 and isinstance(node.targets[0], ast.Name) \
             and isinstance(node.value, (ast.Attribute, ast.Subscript)):
@@ -216,7 +227,12 @@ def x_AugAssign(eng, node, st):
             if isinstance(o, Raise):
                 outs.append((s, ("raise", o)))
                 continue
-            for s1, cur in eng.getattr(o, t.attr, s):
+            eng._self_update = True      # x.f += v reads f only to update f
+            try:
+                loaded = eng.getattr(o, t.attr, s)
+            finally:
+                eng._self_update = False
+            for s1, cur in loaded:
                 if isinstance(cur, Raise):
                     outs.append((s1, ("raise", cur)))
                     continue
